@@ -14,15 +14,24 @@
    [spec_config] is a violation of the property, not a disagreement with the
    model of the code (that one runs on the regenerated tables). *)
 From Robsd Require Export Conf.ConfOracle.
-From Robsd Require Import Conf.ConfDefs Conf.ConfSpec Conf.DocSpec Conf.ConfTie Conf.ConfSound Conf.ConfComplete
+From Robsd Require Import Conf.ConfDefs Conf.ConfSpec Conf.DocSpec Conf.DocExceptions Conf.ConfTie Conf.ConfSound Conf.ConfComplete
   Conf.ConfDiag Conf.ConfReject Conf.ConfRdomain.
 From RobsdGen Require Import Gen_Conf.
 From Coq Require Import String.
 Local Open Scope string_scope.
 
-(* the token table of the code is the documented one (rows without a literal never match) *)
+(* the token table of the code is the documented one with [token_exceptions] applied (rows without a literal never match):
+   "s" is a word of every mode in conf-token.h, of robsd-regress.conf.5 only in the documentation *)
 Lemma tokens_match_docs :
-  filter (fun r => match tr_key r with [] => false | _ => true end) token_table = doc_tokens.
+  filter (fun r => match tr_key r with [] => false | _ => true end) token_table = tokens_as_built.
+Proof. vm_compute. reflexivity. Qed.
+
+Lemma tokens_differ_from_docs_exactly :
+  filter (fun r => negb (existsb (fun d => ttype_eqb (tr_type d) (tr_type r) && beq (tr_key d) (tr_key r)
+                                           && match tr_mode d, tr_mode r with
+                                              | None, None => true | Some a, Some b => mode_eqb a b | _, _ => false end) doc_tokens))
+         tokens_as_built
+  = [mk_tokrow T_SECONDS [115%N] None].
 Proof. vm_compute. reflexivity. Qed.
 
 Lemma wf_tokens_gen m : wf_tokens (tables_of m) = true.
